@@ -22,6 +22,8 @@ Import ListNotations.
 (* arms of the dispatching pipeline (pli/dispatch.rs) and the striping kernels *)
 Inductive arm : Type := AGeneric | ASse2 | AAvx2.
 Inductive kernel : Type := KGeneric | KAvx2.
+(* arms of the dispatching pipeline on arm / aarch64 targets (Dispatch = Generic | Neon) *)
+Inductive arm_neon : Type := NGeneric | NNeon.
 
 Inductive intr : Type :=
 | IUnpackLo (w : nat)        (* _mm256_unpacklo_epi<w> *)
